@@ -291,7 +291,20 @@ class GarbageCollector:
         return deleted_count
 
     def _normalize_path(self, path: str) -> str:
-        """Normalize path to be relative to table root and strip leading slashes."""
-        if path.startswith(self.table_path):
-            path = path[len(self.table_path):]
+        """Normalize path to be relative to table root and strip leading slashes.
+
+        The table location is stripped only as a whole leading path component
+        that is followed by one of the table's own top-level directories. A
+        plain string-prefix strip mangled table-relative paths whenever the
+        location is itself a prefix of "data/..." or "metadata/..." (a table at
+        the relative location "d" or "data", or at "/data"): listings came back
+        as "data/x" -> "ata/x" / "x" while manifest entries "/data/x" were left
+        alone, so nothing matched the reachable set and every live file was
+        collected.
+        """
+        base = self.table_path.rstrip("/")
+        if base and path.startswith(base + "/"):
+            rest = path[len(base) + 1:]
+            if rest.startswith(("data/", "metadata/")):
+                path = rest
         return path.lstrip("/")
